@@ -173,6 +173,13 @@ class ScriptEntity(Entity):
         if event._cancelled:
             r.problems.append(("cancelled-delivered", f"cancelled event uid={uid} delivered"))
         now = self._note(uid, -1, event.time.nanoseconds)
+        # state carried by the event itself (not by the entity): an event is handled once, so this is 0 on arrival
+        meta = event.context["metadata"]
+        seen_before = meta.get("seen", 0)
+        meta["seen"] = seen_before + 1
+        if seen_before:
+            r.problems.append(("event-metadata-not-fresh", f"event {event.event_type} arrived with seen={seen_before}"))
+            return None
         k = int(event.event_type[1:])
         h = r.prog["handlers"].get(f"{self.idx}:{k}")
         if h is None:
